@@ -775,6 +775,25 @@ def method_render(self):
             if 'OBJ_TYPE_REF' in s:
                 raise G2CError('unparsed OBJ_TYPE_REF %r' % s)
             s = self.resolve_calls(s)
+            # scope hint: the class of a callee whose result lands in a variable of a typedef-named struct type
+            mh = re.match(r'^(\S+) = (_Z\w+) \(', s)
+            if mh:
+                vt = self.vtype(mh.group(1))
+                mu = re.search(r'(?:struct|union) (\S*?)D_(\d+)', vt or '')
+                if mu:
+                    cq = class_of_method(self.U.dem.get(mh.group(2), ''))
+                    if cq:
+                        self.R.scope_hints.setdefault(mu.group(2), set()).add(cq)
+            mh = re.search(r'\b(_Z\w+) \((.*)\);$', s)
+            if mh:
+                cq = class_of_method(self.U.dem.get(mh.group(1), ''))
+                if cq:
+                    for a_ in split_top(mh.group(2), ','):
+                        a_ = a_.lstrip('&')
+                        vt = self.vtype(a_)
+                        mu = re.search(r'(?:struct|union) (\S*?)D_(\d+)', vt or '')
+                        if mu:
+                            self.R.scope_hints.setdefault(mu.group(2), set()).add(cq)
             m = re.match(r'^__cxa_throw \((.*), (&\S+), (\S+)\);$', s)
             if m:
                 s = '__cxa_throw (%s, %s, 0);' % (m.group(1), m.group(2))   # destructor pointer dropped
@@ -933,6 +952,7 @@ class Renderer:
         self.struct_refs = set()
         self.scalar_refs = set()
         self.file_statics = set()
+        self.scope_hints = {}
         self.rendered = {}      # mangled -> (sig, body, FuncRenderer)
         self.external = set()   # callees not rendered
         self.transparent = list(transparent)
@@ -1012,7 +1032,7 @@ class Renderer:
         """ask the gdb oracle about every struct / scalar placeholder; returns (types_h, fns_c)"""
         import os, tempfile
         reqf = os.path.join(workdir, 'g2c_req.json'); outf = os.path.join(workdir, 'g2c_ans.json')
-        structs = [[uid, name, self.unit.struct_q.get(uid)] for uid, name in sorted(self.struct_refs)]
+        structs = [[uid, name, self.unit.struct_q.get(uid), sorted(self.scope_hints.get(uid, []))] for uid, name in sorted(self.struct_refs)]
         sigs = []
         def base_tok(raw):
             m = re.search(r'(?:(struct|union|enum) )?((?:[A-Za-z_]' + IDCH + r'*?)??)D_(\d+)', raw)
